@@ -151,13 +151,21 @@ Do_Return(x) == [x EXCEPT !.phase = "done", !.ret = IF x.phase = "run" THEN "nil
 En_HostPanic(x) == x.phase = "unwind" /\ x.panic = "fatal"
 Do_HostPanic(x) == [x EXCEPT !.phase = "done", !.ret = "hostpanic"]
 
-Step(x) == CASE En_WriteOk(x) -> Do_WriteOk(x) [] En_WriteFail(x) -> Do_WriteFail(x)
-             [] En_BufWrite(x) -> Do_BufWrite(x) [] En_RaiseOutError(x) -> Do_RaiseOutError(x)
-             [] En_ConverterWriteOk(x) -> Do_ConverterWriteOk(x) [] En_ConverterWriteFail(x) -> Do_ConverterWriteFail(x)
-             [] En_ConverterWriteBuf(x) -> Do_ConverterWriteBuf(x) [] En_ConverterError(x) -> Do_ConverterError(x)
-             [] En_Call(x) -> Do_Call(x) [] En_Defer(x) -> Do_Defer(x) [] En_Ret(x) -> Do_Ret(x)
-             [] En_Unwind(x) -> Do_Unwind(x) [] En_TemplateRecover(x) -> Do_TemplateRecover(x)
-             [] En_Return(x) -> Do_Return(x) [] En_HostPanic(x) -> Do_HostPanic(x)
+\* the model as a function (k >= 1 given; with k = 0 no attempt fails).  It dispatches on the phase first;
+\* InvStepAgrees checks on every reachable state that it is the enabled action's effect.
+Step(x) ==
+  IF Due(x) THEN
+    IF ~OnW(x) THEN (IF ConvPiece(x) THEN Do_ConverterWriteBuf(x) ELSE Do_BufWrite(x))
+    ELSE IF WillFail(x) THEN (IF ConvPiece(x) THEN Do_ConverterWriteFail(x) ELSE Do_WriteFail(x))
+    ELSE (IF ConvPiece(x) THEN Do_ConverterWriteOk(x) ELSE Do_WriteOk(x))
+  ELSE IF x.phase = "run" THEN
+    (IF Op(x) \in Calls THEN Do_Call(x) ELSE IF Op(x) = "R" THEN Do_Ret(x) ELSE IF Op(x) = "END" THEN Do_Return(x) ELSE Do_Defer(x))
+  ELSE IF x.phase = "raise" THEN Do_RaiseOutError(x)
+  ELSE IF x.phase = "converr" THEN Do_ConverterError(x)
+  ELSE IF x.panic = "fatal" THEN Do_HostPanic(x)
+  ELSE IF En_TemplateRecover(x) THEN Do_TemplateRecover(x)
+  ELSE IF En_Unwind(x) THEN Do_Unwind(x)
+  ELSE Do_Return(x)
 RECURSIVE Final(_)
 Final(x) == IF x.phase = "done" THEN x ELSE Final(Step(x))
 \* number of attempts on the real writer of a fault-free render of prog (with k = 0 both WriteOk and
@@ -202,6 +210,24 @@ EnSet(x) == {i \in 1..15 : Ens(x)[i]}
 InvDeterministic == IF s.phase = "done" THEN EnSet(s) = {} /\ s.ret # "none"
                     ELSE \/ Cardinality(EnSet(s)) = 1
                          \/ s.k = 0 /\ EnSet(s) \in {{1, 2}, {5, 6}}
+\* the function Step is the state machine Next (for the k the behaviour chose; before that: the non-failing branch)
+InvStepAgrees == s.phase # "done" =>
+   LET t == Step(s) IN
+   /\ (En_WriteOk(s) => t = Do_WriteOk(s))
+   /\ ((En_WriteFail(s) /\ s.k # 0) => t = Do_WriteFail(s))
+   /\ (En_BufWrite(s) => t = Do_BufWrite(s))
+   /\ (En_RaiseOutError(s) => t = Do_RaiseOutError(s))
+   /\ (En_ConverterWriteOk(s) => t = Do_ConverterWriteOk(s))
+   /\ ((En_ConverterWriteFail(s) /\ s.k # 0) => t = Do_ConverterWriteFail(s))
+   /\ (En_ConverterWriteBuf(s) => t = Do_ConverterWriteBuf(s))
+   /\ (En_ConverterError(s) => t = Do_ConverterError(s))
+   /\ (En_Call(s) => t = Do_Call(s))
+   /\ (En_Defer(s) => t = Do_Defer(s))
+   /\ (En_Ret(s) => t = Do_Ret(s))
+   /\ (En_Unwind(s) => t = Do_Unwind(s))
+   /\ (En_TemplateRecover(s) => t = Do_TemplateRecover(s))
+   /\ (En_Return(s) => t = Do_Return(s))
+   /\ (En_HostPanic(s) => t = Do_HostPanic(s))
 \* the failing attempt is the k-th, and nothing but k (and stickiness) decides it
 InvFailAtK == s.failed => (s.k >= 1 /\ s.att >= s.k)
 =============================================================================
